@@ -224,7 +224,8 @@ func init() {
 		core.RunLeg(c, core.Leg[c20Case]{
 			Name: "F", Kind: "oracle(flips)",
 			Rule: "random ASTs of the C01 fragment compiled with IgnoreCase (plus random m/s/n/x, 20% RightToLeft), literals/classes/ranges/subtractions/backrefs over letters with plain case pairs (ASCII without k/s, Latin-1, Greek, Cyrillic); each case flips the case of a random third of the input letters and of a random third of the pattern's literal letters / class members / range endpoints; Go find (span + all captures) on (pattern,input) must equal find on (pattern,flipped input), (flipped pattern,input), (flipped pattern,flipped input); MatchString likewise (prefix-search fast paths). non-trivial = something was flipped and input non-empty",
-			N:    c.N(6000, 300000), Gen: g.next, Check: c20Check, Batch: 4000,
+			Corpus: c20RtlRefCorpus(),
+			N:      c.N(6000, 300000), Gen: g.next, Check: c20Check, Batch: 4000,
 		})
 		st := &specGenState{cfg: c20Config, perAst: 6, maxLen: 10}
 		core.RunLeg(c, core.Leg[specCase]{
@@ -233,4 +234,26 @@ func init() {
 			N:    c.N(4000, 200000), Gen: st.next, Check: specCheck("C20"), Batch: 4000,
 		})
 	})
+}
+
+// c20RtlRefCorpus: a backreference that is matched right to left under IgnoreCase (RightToLeft, or inside a
+// lookbehind) and whose text differs from the capture only in case — the one instruction that still reads the
+// case-insensitive bit at run time, in the direction the random streams reach least often.
+func c20RtlRefCorpus() []c20Case {
+	lit := func(r rune) *gen.Node { return &gen.Node{Kind: gen.KLit, Ch: r} }
+	var out []c20Case
+	for _, r := range []rune{'b', 'q', 'é', 'δ'} {
+		rtl := &gen.Node{Kind: gen.KSeq, Subs: []*gen.Node{{Kind: gen.KRef, Group: 1}, {Kind: gen.KCap, Subs: []*gen.Node{lit(r)}}}}
+		behind := &gen.Node{Kind: gen.KSeq, Subs: []*gen.Node{
+			{Kind: gen.KLook, Behind: true, Subs: []*gen.Node{{Kind: gen.KSeq, Subs: []*gen.Node{{Kind: gen.KRef, Group: 1}, {Kind: gen.KCap, Subs: []*gen.Node{lit(r)}}}}}},
+			lit('z')}}
+		oR, oB := gen.Opts{I: true, RTL: true}, gen.Opts{I: true}
+		gen.AssignGroups(rtl, oR)
+		gen.AssignGroups(behind, oB)
+		for _, f := range [][]int{{0}, {1}} {
+			out = append(out, c20Case{Ast: rtl, Opts: oR, Text: []rune{r, r}, Start: 2, FlipText: f})
+			out = append(out, c20Case{Ast: behind, Opts: oB, Text: []rune{r, r, 'z'}, Start: 0, FlipText: f})
+		}
+	}
+	return out
 }
